@@ -60,3 +60,14 @@ Proof.
   intros C g k ta tb r. destruct (constructed_wellformed icf o C) as (S & _ & A & _).
   apply (exact_similarity_nonneg o (so_q o S) A).
 Qed.
+
+Theorem constructed_structure icf o : constructed icf o -> src_ok o /\ acyclic (o_arena o).
+Proof. intros C. destruct (constructed_wellformed icf o C) as (S & Ac & _). auto. Qed.
+
+Theorem constructed_annotations icf o : constructed icf o ->
+  ann_ok o /\ (forall k, NoDup (map a_id (o_records k o))) /\
+  (forall k r d, In r (o_records k o) -> In d (a_hpos r) -> In d (ar_keys (o_arena o))).
+Proof. intros C. destruct (constructed_wellformed icf o C) as (_ & _ & A & _ & Nd & Dk). auto. Qed.
+
+Theorem constructed_ic icf o : constructed icf o -> ic_ok icf o.
+Proof. intros C. destruct (constructed_wellformed icf o C) as (_ & _ & _ & Ic & _). exact Ic. Qed.
